@@ -13,10 +13,24 @@ use std::path::{Path, PathBuf};
 use std::process::{Child, Command, Stdio};
 
 fn options(dir: &Path) -> Options {
-	let mut o = Options::with_columns(dir, 1);
+	let mut o = Options::with_columns(dir, 2);
 	o.with_background_thread = false;
 	o.always_flush = true;
+	// column 1: trees, so that a client can hold a tree reader (an object that refers to the database) beyond
+	// the life of its handle
+	o.columns[1] = parity_db::ColumnOptions { multitree: true, allow_direct_node_access: true, ..Default::default() };
 	o
+}
+
+type Reader = std::sync::Arc<parking_lot::RwLock<Box<dyn parity_db::TreeReader + Send + Sync>>>;
+
+/// a tree is inserted and a reader of it handed out
+fn take_reader(db: &Db, n: u64) -> Option<Reader> {
+	let key = format!("tree-{n}").into_bytes();
+	let node = parity_db::NewNode { data: n.to_le_bytes().to_vec(), children: vec![] };
+	db.commit_changes(vec![(1u8, parity_db::Operation::InsertTree(key.clone(), node))]).ok()?;
+	db.process_commits().ok()?;
+	db.get_tree(1, &key).ok().flatten()
 }
 
 fn open_code(r: &parity_db::Result<Db>) -> u64 {
@@ -122,6 +136,9 @@ pub fn main(args: &[String]) -> i32 {
 		let _ = std::fs::remove_dir_all(&dir);
 		std::fs::create_dir_all(&dir).unwrap();
 		let mut handles: BTreeMap<u64, Handle> = BTreeMap::new();
+		// tree readers handed out by handles of this process; kept until the end of the history, whatever
+		// happens to the handle they came from
+		let mut kept_readers: Vec<Reader> = Vec::new();
 		let mut next_h = 1u64;
 		let mut toks: Vec<u64> = Vec::new();
 		let mut obs: Vec<u64> = Vec::new();
@@ -143,6 +160,12 @@ pub fn main(args: &[String]) -> i32 {
 						let r = std::thread::spawn(move || Db::open_or_create(&options(&d))).join().unwrap();
 						let c = open_code(&r);
 						if let Ok(db) = r {
+							if rng.chance(1, 2) {
+								if let Some(rd) = take_reader(&db, h) {
+									kept_readers.push(rd);
+									*dist.entry("tree-reader-kept-beyond-its-handle".into()).or_insert(0) += 1;
+								}
+							}
 							handles.insert(h, Handle::Local(db));
 						}
 						c
@@ -331,6 +354,7 @@ pub fn main(args: &[String]) -> i32 {
 					verdict = Err(format!("reopen-refused after every handle was dropped or its process died, opening fails: {e:?}"));
 				},
 		}
+		drop(kept_readers);
 		obs.push(98);
 		obs.push(last_written);
 		let mut case = vec![18u64, nops];
